@@ -83,7 +83,7 @@ func genPlan(t *rapid.T, tier string) any {
 				s.How = rapid.SampledFrom([]string{"truncate", "extend", "flip", "delete", "replace"}).Draw(t, "how")
 			}
 			s.Arg = rapid.IntRange(0, 200).Draw(t, "arg")
-			s.Variant = rapid.IntRange(0, 11).Draw(t, "variant")
+			s.Variant = rapid.IntRange(0, 22).Draw(t, "variant")
 		}
 		p.Steps = append(p.Steps, s)
 	}
@@ -116,6 +116,28 @@ func nearValid(variant int, id, other cache.ActionID, out, otherOut cache.Output
 		return []byte(cachekit.EntryText(id, out, size+1, 12345))
 	case 10: // size one smaller than the file
 		return []byte(cachekit.EntryText(id, out, size-1, 12345))
+	case 12: // size field entirely blank
+		return []byte(fmt.Sprintf("v1 %x %x %20s %20d\n", id[:], out[:], "", 12345))
+	case 13: // timestamp field entirely blank
+		return []byte(fmt.Sprintf("v1 %x %x %20d %20s\n", id[:], out[:], size, ""))
+	case 14: // number followed by a blank instead of being right-aligned
+		return []byte(fmt.Sprintf("v1 %x %x %-20d %20d\n", id[:], out[:], size, 12345))
+	case 15: // other format version
+		return []byte("v2" + good[2:])
+	case 16: // tab instead of a separating space
+		return []byte(good[:2] + "\t" + good[3:])
+	case 17: // a non-hex character in the output id
+		return []byte(good[:3+64+1] + "g" + good[3+64+2:])
+	case 18: // carriage return instead of the final newline
+		return []byte(good[:len(good)-1] + "\r")
+	case 19: // minus sign in the timestamp
+		return []byte(fmt.Sprintf("v1 %x %x %20d %20d\n", id[:], out[:], size, -12345))
+	case 20: // size zero although the output is not empty (or the other way round)
+		return []byte(cachekit.EntryText(id, out, 0, 12345))
+	case 21: // one bit flipped in the output id of an otherwise valid entry
+		b := []byte(good)
+		b[3+64+1+5] ^= 1
+		return b
 	default: // spaces inside the number
 		return []byte(fmt.Sprintf("v1 %x %x %18d 1 %20d\n", id[:], out[:], size, 12345))
 	}
@@ -350,7 +372,7 @@ var harness = &simcheck.Harness{
 	Level:    "exploration",
 	Rule: "rapid draws a history of up to 14 (quick) / 25 (thorough) steps over 3 action ids and up to 4 contents of sizes {0,1,2,100,5000,40000}: " +
 		"Put (PutBytes or a chunking ReadSeeker), Get, GetBytes, GetFile, OutputFile, and damage steps applied with the raw OS between operations " +
-		"(truncate/extend/flip/delete/replace of index or data files, 12 kinds of nearly valid index entries); non-trivial = at least one lookup after a damage step; " +
+		"(truncate/extend/flip/delete/replace of index or data files, 23 kinds of nearly valid index entries); non-trivial = at least one lookup after a damage step; " +
 		"distinct by the hash of the intercepted file-operation sequence",
 	Gen:     genPlan,
 	NewPlan: func() any { return &Plan{} },
